@@ -1,19 +1,51 @@
 #!/usr/bin/env python3
-"""Re-run every hand-made mutant / revert under /verif/mutants/<Cxx>/ against the quick check of <Cxx> (applied to /repo and
-reverted).  usage: tools/rerun_mutants.py [Cxx]   - prints one line per mutant; exit 1 if an unexpected one is not detected"""
-import glob, os, subprocess, sys
-pref = sys.argv[1] if len(sys.argv) > 1 else ""
+"""Re-run every hand-made mutant / revert under /verif/mutants/<Cxx>/ against the quick check of <Cxx>, in scratch worktrees of
+/repo's HEAD (/repo itself is not touched).  usage: tools/rerun_mutants.py [Cxx] [--workers 6]
+prints one line per mutant; exit 1 if an unexpected one is not detected"""
+import glob, os, subprocess, sys, threading
+args = [a for a in sys.argv[1:] if not a.startswith("--")]
+pref = args[0] if args else ""
+workers = int(sys.argv[sys.argv.index("--workers") + 1]) if "--workers" in sys.argv else 6
 # mutants that are NOT violations by design (reported as drift / equivalent): see DESIGN.md section 10
 EXPECTED_UNDETECTED = {"C11/typed_receive_no_assert.diff"}
-bad = 0
-for f in sorted(glob.glob("/verif/mutants/*/*.diff")):
-    pid = os.path.basename(os.path.dirname(f))
-    if pref and pid != pref:
-        continue
-    p = subprocess.run(["/verif/tools/try_patch.sh", f, pid], capture_output=True, text=True)
-    what = [l.strip() for l in p.stdout.splitlines() if l.strip().startswith("what:")][:1]
-    rel = pid + "/" + os.path.basename(f)
-    ok = (p.returncode == 1) != (rel in EXPECTED_UNDETECTED)
-    bad += 0 if ok else 1
-    print("%-55s exit=%d %s%s" % (rel, p.returncode, (what[0][6:] if what else "")[:80], "" if ok else "   <-- UNEXPECTED"), flush=True)
-sys.exit(1 if bad else 0)
+BASE = "/tmp/rerun_wt"
+todo = [f for f in sorted(glob.glob("/verif/mutants/*/*.diff")) if not pref or os.path.basename(os.path.dirname(f)) == pref]
+bad, lock = [0], threading.Lock()
+
+
+def work(w):
+    wt = "%s/m%d" % (BASE, w)
+    subprocess.run(["git", "-C", "/repo", "worktree", "add", "-q", "--detach", wt, "HEAD"], check=True)
+    try:
+        while True:
+            with lock:
+                if not todo:
+                    return
+                f = todo.pop(0)
+            pid = os.path.basename(os.path.dirname(f))
+            subprocess.run(["git", "-C", wt, "checkout", "-q", "--", "."])
+            a = subprocess.run(["git", "-C", wt, "apply", f], capture_output=True, text=True)
+            if a.returncode:
+                rc, out = 3, "PATCH DOES NOT APPLY"
+            else:
+                p = subprocess.run("cd /verif && VERIF_REPO=%s ./check %s --tier quick" % (wt, pid), shell=True, capture_output=True, text=True)
+                rc, out = p.returncode, p.stdout
+            what = [l.strip() for l in out.splitlines() if l.strip().startswith("what:")][:1]
+            rel = pid + "/" + os.path.basename(f)
+            ok = (rc == 1) != (rel in EXPECTED_UNDETECTED)
+            with lock:
+                bad[0] += 0 if ok else 1
+                print("%-55s exit=%d %s%s" % (rel, rc, (what[0][6:] if what else out[-80:] if rc != 0 else "")[:80], "" if ok else "   <-- UNEXPECTED"), flush=True)
+    finally:
+        subprocess.run(["git", "-C", "/repo", "worktree", "remove", "--force", wt])
+
+
+os.makedirs(BASE, exist_ok=True)
+ts = [threading.Thread(target=work, args=(i,)) for i in range(workers)]
+[t.start() for t in ts]
+[t.join() for t in ts]
+try:
+    os.rmdir(BASE)
+except OSError:
+    pass
+sys.exit(1 if bad[0] else 0)
